@@ -17,10 +17,13 @@ REAL, STUBS = _hist.REAL, _hist.STUBS
 RULE = ("per-run seed -> 2-4 writer actors (simulated threads and/or processes; FileStorage with flock, or one shared "
         "RamStorage) each running 1-4 transactions: ix.writer(timeout in {0,0.3,2,30}, delay in {0.05,0.1}), 1-3 uniquely keyed "
         "adds and maybe a delete of a committed key, ending in commit / cancel / exception in the with-block / one-shot "
-        "injected EIO|ENOSPC in the body. Every storage operation, lock poll and sleep is a scheduling point under the seeded "
+        "injected EIO|ENOSPC in the body; in 35% of the runs 1-2 more actors drive the AsyncWriter (buffers its calls and replays them "
+        "from its own thread once it gets the lock) or BufferedWriter (holds the lock from construction to close()) front-ends, "
+        "with pauses between their calls. Every storage operation, lock poll and sleep is a scheduling point under the seeded "
         "scheduler (uniform / sticky); the simulated clock makes timeouts race against work that costs time. Checked over the "
         "recorded history: mutual exclusion by effects, LockError only while another writer holds the lock and not before the "
-        "timeout, no lost update, generation == number of commits, no deadlock, the lock is polled and never waited on. Non-trivial = >=2 actors, >=1 "
+        "timeout, no lost update, generation == number of commits, no deadlock and no live-lock (no operation needs more than 200000 "
+        "scheduling points), no library thread dies, the lock is polled and never waited on. Non-trivial = >=2 actors, >=1 "
         "commit and >=1 context switch; distinct = distinct event-log SHA-256.")
 ASSUMPTIONS = ["a writer's critical section is measured by its effects: from ix.writer() returning to its last mutating storage event, so the check does not depend on the lock model",
                "LockError timing is judged on the simulated clock (every storage operation costs 0.05-2 ms of simulated time)",
@@ -68,11 +71,143 @@ def generate(seed, tier):
                         "body": body, "end": end})
         actors.append({"kind": "writer", "name": "W%d" % wi, "txs": txs,
                        "own_process": mrng.random() < 0.5})
+    # the AsyncWriter and BufferedWriter front-ends race the plain writers in 35% of the runs
+    if mrng.random() < 0.35:
+        for fi in range(mrng.randint(1, 2)):
+            kind = mrng.choice(("async", "async", "buffered"))
+            txs = []
+            for ti in range(mrng.randint(1, 3)):
+                body = []
+                for _ in range(wrng.randint(1, 3)):
+                    key[0] += 1
+                    body.append(["add", dg.doc(key=key[0])])
+                    committed_keys.append(key[0])
+                    if wrng.random() < 0.3:
+                        body.append(["sleep", wrng.choice((0.01, 0.1, 0.5))])
+                txs.append({"timeout": wrng.choice((0.0, 0.3, 2.0, 30.0)), "delay": wrng.choice((0.05, 0.1)), "body": body})
+            actors.append({"kind": kind, "name": "%s%d" % (kind[0].upper(), fi), "txs": txs,
+                           "own_process": mrng.random() < 0.5})
     policy = mrng.choice((["uniform"], ["sticky", 0.5], ["sticky", 0.9], ["sticky", 0.99],
                           ["pct", mrng.randint(1, 3), mrng.choice((300, 1500, 4000))],
                           ["pct", mrng.randint(1, 3), mrng.choice((300, 1500, 4000))]))
     return {"prop": ID, "seed": seed, "config": cfg.describe(), "storage_kind": storage_kind,
             "actors": actors, "policy": policy, "schedule": None}
+
+
+class FrontWriter(object):
+    """An AsyncWriter or BufferedWriter racing the other writers. AsyncWriter never raises
+    LockError: it buffers the calls and a helper thread replays them once it gets the lock.
+    BufferedWriter takes the lock when it is constructed and keeps it until close()."""
+
+    def __init__(self, s, name, kind, txs, own_process=True):
+        self.s = s
+        self.name = name
+        self.kind = kind
+        self.txs = txs
+        self.own_process = own_process
+        self.violation = None
+        self.attempts = []
+        self.ix = None
+        self.pending_commit = None
+        self.committer = None
+
+    def apply_pending_commit(self):
+        pc = self.pending_commit
+        if pc is not None:
+            self.pending_commit = None
+            pc.commit()
+            self.s.commit_log.append((self.s.model.generation, self.name))
+            self.committed_gen = self.s.model.generation
+
+    def body(self):
+        try:
+            for tx in self.txs:
+                self.run_tx(tx)
+        except Violation as v:
+            self.violation = v
+
+    def _call(self, fn, what):
+        try:
+            return fn()
+        except (SimAbort, SimKilled, HarnessError, Violation):
+            raise
+        except Exception as e:  # noqa
+            raise Violation("frontend_raised", "%s: %s.%s raised %s: %s" % (self.name, self.kind, what, type(e).__name__, e),
+                            sig="frontend_raised:%s:%s:%s" % (self.kind, what, exc_sig(e)))
+
+    def run_tx(self, tx):
+        from whoosh.index import LockError
+        from whoosh.writing import AsyncWriter, BufferedWriter
+        s = self.s
+        k = s.k
+        if self.ix is None:
+            self.ix = s.actor_storage().open_index()
+        kw = dict(s.cfg.writer_kwargs())
+        k.event("step", "front.begin")
+        a, t0 = k.seq, k.time()
+        mw = s.model.writer()
+        me = k.current
+        self.committed_gen = None
+        if self.kind == "async":
+            w = self._call(lambda: AsyncWriter(self.ix, delay=tx.get("delay", 0.1), writerargs=kw), "__init__")
+            passthrough = w.writer is not None
+            s.count("async_passthrough" if passthrough else "async_buffered")
+            s.first_mut.pop(me.id, None)
+        else:
+            kw["timeout"] = tx.get("timeout", 0.0)
+            kw["delay"] = tx.get("delay", 0.1)
+            att = {"actor": self.name, "a": a, "t0": t0, "timeout": kw["timeout"], "delay": kw["delay"]}
+            self.attempts.append(att)
+            try:
+                w = BufferedWriter(self.ix, period=None, limit=1000, writerargs=kw)
+            except LockError:
+                att.update(outcome="LockError", b=k.seq, t1=k.time())
+                s.count("lockerror")
+                return
+            except (SimAbort, SimKilled, HarnessError):
+                raise
+            except Exception as e:  # noqa
+                raise Violation("writer_open_raised", "BufferedWriter(): %s: %s" % (type(e).__name__, e), sig="writer_open_raised:" + exc_sig(e))
+            att.update(outcome="acquired", b=k.seq, t1=k.time())
+            passthrough = True
+        acquired_at = k.seq
+        for op in tx["body"]:
+            k.event("step", "front." + op[0])
+            if op[0] == "add":
+                self._call(lambda: w.add_document(**op[1]), "add_document")
+                mw.add(op[1])
+            elif op[0] == "del_term":
+                self._call(lambda: w.delete_by_term(op[1], op[2]), "delete_by_term")
+                mw.delete_by_term(op[1], op[2])
+            elif op[0] == "sleep":
+                k.sleep(op[1])
+        self.pending_commit = mw
+        me.actor = self
+        if self.kind == "async":
+            self._call(lambda: w.commit(merge=False), "commit")
+            thr = getattr(w, "_task", None)
+            if thr is not None:
+                # the helper thread does the commit: the model's commit point is its TOC rename
+                thr.actor = self
+                k.block_until(lambda: thr.state == "done", desc="async join")
+                if thr.exc is not None and not isinstance(thr.exc, (SimAbort, SimKilled)):
+                    raise Violation("frontend_raised", "%s: AsyncWriter's thread died: %s" % (self.name, thr.exc),
+                                    sig="frontend_raised:async:thread:" + exc_sig(thr.exc))
+            committer = thr if thr is not None else me
+        else:
+            self._call(lambda: w.close(), "close")
+            committer = me
+        self.apply_pending_commit()   # (a commit without a TOC rename would show up as a lost update)
+        first = acquired_at if (passthrough and self.kind != "async") else s.first_mut.get(committer.id, k.seq)
+        if self.kind == "async" and passthrough:
+            first = acquired_at
+        last = s.last_mut.get(committer.id, first)
+        hold = [first, k.seq, self.committed_gen, self.name, t0, max(last, first), k.time()]
+        s.all_holds.append(hold)
+        if self.committed_gen is not None:
+            s.ret.setdefault(self.committed_gen, k.seq)
+        s.count("commits")
+        s.count("front_commits_" + self.kind)
 
 
 def check_history(s, writers):
@@ -144,6 +279,8 @@ def execute(record, trace=False):
         try:
             s.setup_index()
             writers = [SchedWriter(s, a["name"], a["txs"], own_process=a.get("own_process", True))
+                       if a.get("kind", "writer") == "writer" else
+                       FrontWriter(s, a["name"], a["kind"], a["txs"], own_process=a.get("own_process", True))
                        for a in record["actors"]]
             dl = s.run_actors(writers)
             st = s.full_stats()
@@ -162,12 +299,16 @@ def execute(record, trace=False):
                 return res
             if dl is not None:
                 return viol(Violation("no_deadlock", "no runnable task: %s" % [(d["task"], d["waiting_for"]) for d in dl], sig="deadlock"))
-            for t in s.k.tasks:
-                if t.exc is not None and not isinstance(t.exc, (SimAbort, SimKilled)):
-                    return engine.result_harness("task %s raised %s\n%s" % (t.name, t.exc, t.exc_tb))
             for w in writers:
                 if w.violation is not None:
                     return viol(w.violation)
+            for t in s.k.tasks:
+                if t.exc is not None and not isinstance(t.exc, (SimAbort, SimKilled)):
+                    if t.name.startswith("thr:"):
+                        # a thread the library started itself (AsyncWriter's replay thread) died
+                        return viol(Violation("frontend_raised", "library thread %s died: %s: %s" % (t.name, type(t.exc).__name__, t.exc),
+                                              sig="library_thread_died:%s:%s" % (t.name, exc_sig(t.exc))))
+                    return engine.result_harness("task %s raised %s\n%s" % (t.name, t.exc, t.exc_tb))
             try:
                 check_history(s, writers)
                 final_checks(s, s.actor_storage().open_index())
@@ -176,7 +317,8 @@ def execute(record, trace=False):
             nontrivial = st.get("commits", 0) >= 1 and s.k.switches >= 1 and len(writers) >= 2
             smp = {"seed": record["seed"], "storage": record.get("storage_kind"), "policy": pol,
                    "actors": [{"name": a["name"], "process": a.get("own_process"),
-                               "txs": [{"timeout": t["timeout"], "ops": [o[0] for o in t["body"]], "end": t["end"][0]} for t in a["txs"]]}
+                               "kind": a.get("kind", "writer"),
+                               "txs": [{"timeout": t["timeout"], "ops": [o[0] for o in t["body"]], "end": (t.get("end") or ["commit"])[0]} for t in a["txs"]]}
                               for a in record["actors"]],
                    "outcomes": [(att["actor"], att.get("outcome"), att.get("result")) for w in writers for att in w.attempts],
                    "switches": s.k.switches}
@@ -187,6 +329,14 @@ def execute(record, trace=False):
                 res["log"] = s.k.log
             return res
         except (SimAbort, SimKilled) as e:
+            if (s.k.abort_reason or "").startswith("event cap exceeded"):
+                # "writers never dead-lock the index": one operation that does not finish within
+                # 200000 scheduling points (lock polls included) is a live-lock
+                waiting = sorted(set("%s:%s" % (t.name, t.wait_desc) for t in s.k.tasks if t.state != "done"))
+                res = engine.result_violation("no_deadlock", "an operation did not finish within %d events (tasks still alive: %s)" % (s.k.max_events, waiting),
+                                              sig="livelock", stats={}, digest=s.k.event_digest(), isig=s.k.interleaving_sig())
+                res["record_patch"] = {"schedule": list(s.k.schedule)}
+                return res
             return engine.result_harness("run aborted: %s (%s) deadlock=%s" % (s.k.abort_reason, type(e).__name__, s.k.deadlock))
         except HarnessError as e:
             return engine.result_harness("HarnessError: %s" % e)
